@@ -83,6 +83,7 @@ ObjCore(o) == IF o.k \in {"graph", "fgraph"} THEN GraphCore(o)
 
 \* ------------------------------------------------------------ DESCRIPTIVE
 GEmpty == [k |-> "graph", nodes |-> {}, edges |-> {}, ext |-> <<>>, nls |-> {}, els |-> {}]
+GEmptyF == [k |-> "fgraph", nodes |-> {}, edges |-> {}, ext |-> <<>>, nls |-> {}, els |-> {}, doms |-> {}, facs |-> {}]
 GHasNodeId(g, id) == \E n \in g.nodes : n.id = id
 GHasEdgeId(g, id) == \E e \in g.edges : e.id = id
 GAddNodeRaw(g, n) == [g EXCEPT !.nodes = @ \cup {n}, !.nls = @ \cup {n.l}]
@@ -122,7 +123,7 @@ G_copy(g) == g
 OtherG(h) == IF h = "g1" THEN "g2" ELSE IF h = "g2" THEN "g1" ELSE IF h = "h1" THEN "h2" ELSE "h1"
 IsGraphMutator(op) == op \in {"add_node", "remove_node", "add_edge", "remove_edge", "set_ext"}
 IsHrgMutator(op) == op \in {"set_start", "set_start_str", "add_edge_label", "add_node_label", "add_rule", "new_rule",
-                             "add_domain", "add_factor", "new_finite_domain", "new_finite_factor"}
+                             "add_domain", "add_factor", "set_weights"}
 IsMutator(op) == IsGraphMutator(op) \/ IsHrgMutator(op)
 
 \* A rule of an HRG object in the MODEL heap refers to its right-hand side either by VALUE or
@@ -172,6 +173,13 @@ H_add_factor(h, el, fac) ==
   ELSE IF ~FactorFits(h, el, fac) THEN Raise(h)
   ELSE Ok([h EXCEPT !.els = RegEl(@, el), !.facs = @ \cup {[el |-> el, fac |-> fac]}])
 
+\* factor.weights = w : assignment through the public setter (shape must match)
+H_set_weights(h, name, w) ==
+  IF ~\E f \in h.facs : f.el.name = name THEN Raise(h)
+  ELSE LET f == CHOOSE f \in h.facs : f.el.name = name IN
+       IF Len(w) # Len(f.fac.w) THEN Raise(h)
+       ELSE Ok([h EXCEPT !.facs = (@ \ {f}) \cup {[el |-> f.el, fac |-> [f.fac EXCEPT !.w = w]]}])
+
 SetH(st, c, r) == [out |-> r.out, s |-> [st EXCEPT ![c.h] = r.o]]
 HeapApply(st, c) ==
   IF st[c.h].k = "none" /\ c.op \notin {"new", "new_hrg"} THEN [out |-> "skip", s |-> st]
@@ -186,7 +194,7 @@ HeapApply(st, c) ==
          IF \E i \in DOMAIN st[c.h].rules : st[c.h].rules[i].lhs.type # GraphType(RhsOf(st, st[c.h].rules[i]))
          THEN [out |-> "raise", s |-> st]
          ELSE [out |-> "ok", s |-> [st EXCEPT ![OtherG(c.h)] = H_copy(st, st[c.h])]]
-  ELSE IF c.op = "new"         THEN [out |-> "ok", s |-> [st EXCEPT !["g2"] = GEmpty]]
+  ELSE IF c.op = "new"         THEN [out |-> "ok", s |-> [st EXCEPT !["g2"] = IF st["g1"].k = "fgraph" THEN GEmptyF ELSE GEmpty]]
   ELSE IF c.op = "new_hrg"     THEN
          \* HRG(start) / FGG(start): start is NoLabel (None), a label, or [str |-> name]
          LET h0 == HrgNew(c.kind)
@@ -202,5 +210,6 @@ HeapApply(st, c) ==
          SetH(st, c, H_add_rule(st, st[c.h], [name |-> c.name, type |-> GraphType(g), t |-> FALSE], c.rhs))
   ELSE IF c.op = "add_domain"     THEN SetH(st, c, H_add_domain(st[c.h], c.nl, c.dom))
   ELSE IF c.op = "add_factor"     THEN SetH(st, c, H_add_factor(st[c.h], c.el, c.fac))
+  ELSE IF c.op = "set_weights"    THEN SetH(st, c, H_set_weights(st[c.h], c.name, c.w))
   ELSE [out |-> "skip", s |-> st]
 =============================================================================
